@@ -53,6 +53,8 @@ pub struct Device {
     pub dead_keys: Vec<(String, VaultId, AccessKey)>,
     pub old_passwords: Vec<SecretString>,
     pub cipher_flips: u32,
+    /// value token last written to each slot
+    pub slot_values: BTreeMap<String, String>,
 }
 
 pub async fn make_target(root: &Path, backend: &str) -> Result<BackendTarget> {
@@ -133,6 +135,7 @@ impl Device {
             dead_keys: Vec::new(),
             old_passwords: Vec::new(),
             cipher_flips: 0,
+            slot_values: BTreeMap::new(),
         })
     }
 
@@ -186,6 +189,7 @@ impl Device {
                         .create_secret(meta, secret, (&fid).into())
                         .await?;
                     self.slots.insert(s.clone(), ch.id);
+                    self.slot_values.insert(s.clone(), v);
                     self.slot_history.entry(s).or_default().push((fid, ch.id));
                 }
                 "UpdateSecret" => {
@@ -193,9 +197,14 @@ impl Device {
                     let fid = self.fid(&f)?;
                     let sid = self.sid(&s)?;
                     let (meta, secret) = values::value(&v);
+                    // between v1 and v1t only the meta data changes: the caller
+                    // passes no secret value
+                    let old = self.slot_values.get(&s).cloned().unwrap_or_default();
+                    let meta_only = matches!((old.as_str(), v.as_str()), ("v1", "v1t") | ("v1t", "v1"));
                     self.account
-                        .update_secret(&sid, meta, Some(secret), (&fid).into())
+                        .update_secret(&sid, meta, if meta_only { None } else { Some(secret) }, (&fid).into())
                         .await?;
+                    self.slot_values.insert(s, v);
                 }
                 "DeleteSecret" => {
                     let (f, s) = (a(0), a(1));
